@@ -335,11 +335,15 @@ impl Ctx {
                     println!("  => VIOLATION: {msg}");
                 }
                 let v = Violation { family: family.to_string(), idx, desc: desc(), msg };
+                // violations that no known finding explains are always kept (the worker stops after a few of them);
+                // repetitions of known findings are kept up to a cap and counted beyond it
                 if known_match(&self.known, self.prop, &v).is_none() {
                     self.new_violations += 1;
-                }
-                if self.violations.len() < 4096 {
                     self.violations.push(v);
+                } else if self.violations.len() < 4096 {
+                    self.violations.push(v);
+                } else {
+                    *self.stats.counters.entry("known_finding_cases_beyond_the_per_worker_record_cap".to_string()).or_insert(0) += 1;
                 }
             }
             if self.new_violations >= std::env::var("ZVERIF_MAX_VIOL").ok().and_then(|s| s.parse().ok()).unwrap_or(MAX_VIOLATIONS_PER_WORKER) {
